@@ -111,6 +111,7 @@ class Result:
         self.info: dict = {}
         self._sample_cap = 6
         self._per_mech: dict[str, int] = {}
+        self._known_open = None
 
     def count(self, key: str, n: int = 1) -> None:
         self.counters[key] = self.counters.get(key, 0) + n
@@ -124,8 +125,14 @@ class Result:
         self.evaluations += 1
         self.distinct.add(key if isinstance(key, str) and len(key) == 16 else h64(key))
 
+    def _known(self, mechanism: str) -> bool:
+        if self._known_open is None:
+            self._known_open = [k["mechanism"] for k in load_known() if k.get("status") == "known"]
+        return any(mechanism == k or mechanism.startswith(k + ":") for k in self._known_open)
+
     def violation(self, mechanism: str, detail: str, case=None) -> None:
-        self.count("violations_raw")
+        # recorded findings do not count towards the early-stop budget of a shard
+        self.count("known_finding_hits" if self._known(mechanism) else "violations_raw")
         # keep at most 4 witnesses per mechanism and shard, but always count
         self._per_mech[mechanism] = self._per_mech.get(mechanism, 0) + 1
         if self._per_mech[mechanism] <= 4 and len(self.violations) < 400:
